@@ -46,3 +46,13 @@ func init() {
 		ruleCDC8(w, r)
 	})
 }
+
+func init() {
+	register("C06", "search returns only live, matching, correctly scored results", func(w *World, r *Report) {
+		ruleGRDadmit(w, r)
+		ruleGRDcap(w, r)
+		ruleGRDorder(w, r)
+		ruleGRDxlate(w, r)
+		ruleGRDscope(w, r)
+	})
+}
